@@ -54,3 +54,20 @@ Lemma write_class_head c d ls : write_class c d = Ok ls ->
 Proof.
   unfold write_class. destruct (map_res _ _); cbn [bind]; [|discriminate]. intros [= <-]. eexists. reflexivity.
 Qed.
+
+(* when figure_out_files succeeds (after the fix: two parent-free classes with one file name are refused) *)
+Theorem files_ok_iff M : (exists fs, files M = Ok fs) <->
+  forallb (fun c => scalar (file_name c)) (roots M) = true /\ NoDup (map file_name (roots M)).
+Proof.
+  rewrite files_unfold. unfold named.
+  assert (E1 : forallb (fun nc : str * class => scalar (fst nc)) (map (fun c => (file_name c, c)) (roots M))
+               = forallb (fun c => scalar (file_name c)) (roots M)).
+  { induction (roots M) as [|c l IH]; cbn [map forallb fst]; [reflexivity|]. rewrite IH. reflexivity. }
+  assert (E2 : map fst (map (fun c => (file_name c, c)) (roots M)) = map file_name (roots M)).
+  { rewrite map_map. reflexivity. }
+  rewrite E1, E2. destruct (forallb (fun c => scalar (file_name c)) (roots M)); cbn [negb].
+  - destruct (nodupb str_eqb (map file_name (roots M))) eqn:En; cbn [negb].
+    + split; [intros _; split; [reflexivity|apply nodupb_str_NoDup; exact En]|intros _; eexists; reflexivity].
+    + split; [intros (fs & H); discriminate|]. intros [_ Hn]. apply nodupb_str_NoDup in Hn. congruence.
+  - split; [intros (fs & H); discriminate|intros [H _]; discriminate].
+Qed.
